@@ -112,6 +112,15 @@ def run_case(case, col=None):
                     if dn.ok:
                         F(sub + '-native', 'accepted:' + kind, '%s.decode(native=True) accepted the %s rewrite at %s: %s (DER %s)' % (
                             dec.lower(), kind, where, e2.hex()[:120], e.hex()[:120]), obs={'rewrite': idx, 'kind': kind, 'where': where})
+                if not d.ok and d.status != 'leak' and guided:
+                    # one caller-owned (partial) typeMap= dict serving several codecs, as an application with one registry of
+                    # its own payload decoders has it: what the BER decoder did with it must not soften the strict one
+                    tm = {}
+                    lib.decode('BER', e, sch, typeMap=tm)
+                    ds = lib.decode(dec, e2, sch, typeMap=tm)
+                    if ds.ok and not lib.decode(dec, e2, sch, typeMap={}).ok:
+                        F(sub + '-sharedmap', 'accepted:' + kind, '%s.decode(typeMap=m) accepted the %s rewrite at %s after ber.decode had used the same m: %s' % (
+                            dec.lower(), kind, where, e2.hex()[:120]), obs={'rewrite': idx, 'kind': kind, 'where': where})
                 if d.ok:
                     F(sub, 'accepted:' + kind, '%s.decode accepted the %s rewrite at %s: %s (DER %s)' % (
                         dec.lower(), kind, where, e2.hex()[:120], e.hex()[:120]), obs={'rewrite': idx, 'kind': kind, 'where': where})
